@@ -19,7 +19,8 @@ BASES = {
     "base_e_maths": [["x", "a"], ["inv", "exp", "log_abs"], ["+", "*", "-", "/", "pow"]],
 }
 
-# always run: the witnesses of the two refuted statements and a few shapes every branch of to_list needs
+# always run: the witnesses of the refuted statements, the corpus cases of repaired defects ('2.0', 'x-x', '1.5' with
+# replace_floats: C18:replace-floats:root-number-raises, fixed in /repo 2dc0910) and a few shapes every branch of to_list needs
 FIXED = [
     ("keep_duplicates", "sqrt_abs(x)"), ("keep_duplicates", "log_abs(x)"), ("ext_maths", "sqrt_abs(x)"),
     ("base_e_maths", "log_abs(x)"), ("base_e_maths", "a0*log_abs(x)+a1"), ("keep_duplicates", "pow(x,0.5)"),
@@ -27,11 +28,12 @@ FIXED = [
     ("keep_duplicates", "square(x)"), ("keep_duplicates", "square(x+a0)"), ("keep_duplicates", "(x+a0)**2"),
     ("core_maths", "x**2"), ("core_maths", "x**3"), ("core_maths", "1/x"), ("core_maths", "a0/x"), ("core_maths", "x/2"),
     ("core_maths", "pow(a0,x)"), ("keep_duplicates", "sqrt_abs(a0)"), ("keep_duplicates", "log_abs(a0)"),
-    ("core_maths", "1.0*x"), ("core_maths", "x*1"), ("core_maths", "2.0"), ("core_maths", "x-a0"), ("core_maths", "a0*x-a1"),
+    ("core_maths", "1.0*x"), ("core_maths", "x*1"), ("core_maths", "2.0"), ("core_maths", "x-x"), ("osc_maths", "1.5"), ("core_maths", "x-a0"), ("core_maths", "a0*x-a1"),
     ("core_maths", "x+a0+a1*x"), ("core_maths", "a0*a1*x*inv(x+1)"), ("core_maths", "x**2.5+3*x"), ("core_maths", "a1*x+a0"),
     ("core_maths", "pow(x,2.5+a0)"), ("core_maths", "pow(2.5,x)"), ("core_maths", "2.5*pow(x,3.5)+1.5"),
     ("base10_maths", "log10_abs(x)"), ("base10_maths", "tenexp(x)"), ("osc_maths", "sin(a0*x)"),
     ("keep_duplicates", "exp(x)*2.0"), ("keep_duplicates", "x**(-1.0)"), ("keep_duplicates", "inv(x)**0.5"),
+    ("core_maths", "inv(pow(a0-a2,-a0))"),
 ]
 
 INTS = ["1", "2", "3", "2", "3", "-1", "-1", "0", "4", "5", "-2", "10"]
